@@ -132,6 +132,21 @@ func init() {
 		return &rtProp{id: "C04", gen: rtGen{conflictFree: true}, nQuick: 8000, nThor: 300000, oracle: oracleC04, orders: 2,
 			rule: "conflict-free messages as for C02 (each trip associated with at most one vehicle and vice versa; association by trip update only, vehicle position only, or both; vehicle with id, label only, licence plate only, or no descriptor), entities shuffled, plus 2 further entity orders per case; the oracle walks Trip.Vehicle / Vehicle.Trip pointers (mutual, content equal to the list entries, nil exactly when unassociated); distinct = distinct input JSON; non-trivial = at least one association"}
 	}
+	props["C12"] = func() Prop {
+		return &rtProp{id: "C12", gen: rtGen{alertsOnly: false}, nQuick: 10000, nThor: 400000, oracle: oracleC12,
+			rule: "alerts with 0-4 selectors each over every presence combination of agency / route / route type (known and unknown) / direction / stop / trip descriptor (a known trip of the message, a route-only descriptor with or without direction, start time, start date, empty trip id), several routes and both directions per alert, explicit route selectors colliding with descriptor routes; the fixed cases enumerate all 2^10 presence patterns of a single selector; distinct = distinct input JSON; non-trivial = an alert with at least one selector",
+			fixed: fixedC12}
+	}
+	props["C16"] = func() Prop {
+		return &rtProp{id: "C16", gen: rtGen{conflictFree: true, nyctTrips: true, zones: []string{"nil", "UTC", "America/New_York"}}, nQuick: 8000, nThor: 200000, oracle: oracleC16,
+			rule: "conflict-free messages mixing NYCT-extended and plain entities: NYCT trip descriptors with every presence combination of train id / is_assigned / direction (NORTH, EAST, SOUTH, WEST), NYCT-format ids (one and two character routes, multi-byte characters in the wildcard positions) and plain ids, stop time updates with scheduled/actual track presence patterns and stop ids at the M-train stations (N, S and other suffixes), first-stop times around the feed timestamp; all four option combinations; the thorough tier additionally runs every origin time 000000-599999; distinct = distinct input JSON; non-trivial = at least one entity",
+			fixed: fixedC16}
+	}
+	props["C17"] = func() Prop {
+		return &rtProp{id: "C17", gen: rtGen{nyctAlerts: true, alertsOnly: true}, nQuick: 8000, nThor: 200000, oracle: oracleC17,
+			rule: "alert feeds of 1-6 alerts: elevator ids (platform N/S, station only, shared elevators across stations, ids with a prefix before the station, malformed near-misses), lmm:planned_work / lmm:alert / other prefixes, Mercury sort orders with every priority 1-40 and out-of-table, signed and malformed values, MercuryAlert extension present or not; 3 deduplication policies x station-id flag x skip flag x metadata flag; distinct = distinct input JSON; non-trivial = at least one output alert",
+			fixed: fixedC17}
+	}
 	props["C07"] = func() Prop {
 		return &c07Prop{}
 	}
@@ -168,3 +183,98 @@ func (p *c07Prop) Check(in map[string]any, model json.RawMessage) Verdict {
 	return p.cf.Check(in, model)
 }
 func (p *c07Prop) Fixed() []map[string]any { return nil }
+
+// every presence pattern of a single selector (2^10)
+func fixedC12() []map[string]any {
+	var out []map[string]any
+	for mask := 0; mask < 1024; mask++ {
+		s := map[string]any{}
+		d := map[string]any{}
+		bit := func(i int) bool { return mask&(1<<uint(i)) != 0 }
+		if bit(0) {
+			s["agencyId"] = "MTA"
+		}
+		if bit(1) {
+			s["routeId"] = "A"
+		}
+		if bit(2) {
+			s["routeType"] = 1
+		}
+		if bit(3) {
+			s["directionId"] = 1
+		}
+		if bit(4) {
+			s["stopId"] = "A01N"
+		}
+		if bit(5) {
+			d["tripId"] = "t1"
+		}
+		if bit(6) {
+			d["routeId"] = "B"
+		}
+		if bit(7) {
+			d["directionId"] = 0
+		}
+		if bit(8) {
+			d["startTime"] = "10:00:00"
+		}
+		if bit(9) {
+			d["startDate"] = "20240102"
+		}
+		if mask>>5 != 0 {
+			s["trip"] = d
+		}
+		out = append(out, map[string]any{"kind": "realtime", "zone": "UTC", "msg": map[string]any{"timestamp": 1700000000,
+			"entities": []any{map[string]any{"id": "a", "alert": map[string]any{"informed": []any{s}}}}}})
+	}
+	return out
+}
+
+// boundary cases of the stale filter, and the M swap
+func fixedC16() []map[string]any {
+	var out []map[string]any
+	for _, first := range []int64{0, 1699999999, 1700000000, 1700000001} {
+		for _, assigned := range []bool{false, true} {
+			for _, useArr := range []bool{false, true} {
+				ev := map[string]any{"time": first}
+				stu := map[string]any{"stopId": "M11N", "departure": ev}
+				if useArr {
+					stu = map[string]any{"stopId": "M11N", "arrival": ev}
+				}
+				if first == 0 {
+					stu = map[string]any{"stopId": "M11N"}
+				}
+				for _, filter := range []bool{false, true} {
+					out = append(out, map[string]any{"kind": "realtime", "zone": "UTC", "conflictFree": true,
+						"ext": map[string]any{"kind": "nycttrips", "filterStale": filter, "preserveM": false},
+						"msg": map[string]any{"timestamp": 1700000000, "entities": []any{map[string]any{"id": "e", "tripUpdate": map[string]any{
+							"trip": map[string]any{"tripId": "123450_M..N", "routeId": "M", "nyct": map[string]any{"trainId": "0M 1234", "isAssigned": assigned, "direction": 3}},
+							"stus": []any{stu, map[string]any{"stopId": "M18X"}, map[string]any{"stopId": "M16S"}}}}}}})
+				}
+			}
+		}
+	}
+	return out
+}
+
+func fixedC17() []map[string]any {
+	var out []map[string]any
+	ids := []string{"A27N#EL123", "E01S#EL123", "A27S#EL123", "E01N#EL123", "L03#EL5", "lmm:planned_work:1"}
+	ents := []any{}
+	for _, id := range ids {
+		ents = append(ents, map[string]any{"id": id, "alert": map[string]any{"informed": []any{map[string]any{"stopId": "zzz", "mercurySortOrder": "a:40"}}, "hasMercuryAlert": true}})
+	}
+	for _, pol := range []string{"none", "station", "complex"} {
+		for _, st := range []bool{false, true} {
+			out = append(out, map[string]any{"kind": "realtime", "zone": "UTC", "ext": map[string]any{"kind": "nyctalerts", "policy": pol, "useStationIds": st, "skipTimetabled": true, "addMetadata": true},
+				"msg": map[string]any{"timestamp": 1700000000, "entities": ents}})
+		}
+	}
+	// every priority, in and out of the table
+	for p := -1; p <= 42; p++ {
+		out = append(out, map[string]any{"kind": "realtime", "zone": "UTC", "ext": map[string]any{"kind": "nyctalerts", "policy": "none", "skipTimetabled": p%2 == 0},
+			"msg": map[string]any{"entities": []any{map[string]any{"id": fmt.Sprintf("x%d", p), "alert": map[string]any{"effect": 4, "informed": []any{
+				map[string]any{"routeId": "A", "mercurySortOrder": fmt.Sprintf("MTASBWY:A:%d", p)}}}}}}})
+	}
+	return out
+}
